@@ -41,7 +41,7 @@ ASSUMPTIONS = ["one input vector per timestamp on every stream (lock-step feedin
 
 def budget(tier: str) -> dict[str, Any]:
     if tier == "quick":
-        return {"shards": 8, "cases": 1200}
+        return {"shards": 8, "cases": 3600}
     return {"shards": 32, "cases": 8000, "hashseeds": [0, 1, 2, 3]}
 
 
@@ -160,8 +160,11 @@ def check(prog: dict[str, Any], rec: Any) -> None:
                 if val is not None:
                     rec.violation("non-finite-result-emitted-as-a-value", {**w, "got": val})
                 continue
-            if big > F(10) ** 300:
-                rec.count("rounds_with_possible_intermediate_overflow(skipped)")
+            small = fm.min_abs_nonzero(ast, vals)
+            if big > F(10) ** 300 or (small is not None and small < F(1, 10 ** 290)):
+                # an intermediate result leaves the float range (overflow / underflow to 0): the exact
+                # reference cannot predict the float outcome
+                rec.count("rounds_with_possible_intermediate_overflow_or_underflow(skipped)")
                 continue
             if any_missing:
                 rec.bucket("expected-value-despite-missing(zeros)")
